@@ -41,7 +41,10 @@ RangeKind(ln) ==
   CASE ln.op \in {"assign_rng", "append_rng"} -> ln.a[1]
     [] ln.op \in {"insert_rng", "ctor_rng"}   -> ln.a[2]
     [] OTHER -> 4
-RangeKindOK(ln) == RangeKind(ln) \in {1, 2, 3, 4, 5, 6}
+RangeKindOK(ln) ==
+  \/ RangeKind(ln) \in {1, 2, 3, 4, 5, 6}
+  \* single-pass input ranges: everything except the mid-sequence insert (which buffers the range in a temporary container)
+  \/ RangeKind(ln) = 0
 
 (***************************************************************************)
 (* Instructions                                                            *)
@@ -58,8 +61,11 @@ ITry(body, handler)  == [t |-> "try", body |-> body, handler |-> handler]
 IUc(items)           == [t |-> "uc", items |-> items]      \* self-cleaning uninitialized_copy / fill / value-construct
 IThrow(what)         == [t |-> "throw", what |-> what]
 IRet(x)              == [t |-> "ret", x |-> x]
+IStream(code, j, len) == [t |-> "stream", code |-> code, j |-> j, len |-> len]   \* single-pass iterator: 6 dereference / 7 increment at position j
 IGen(j)              == [t |-> "gen", j |-> j]                \* one call of the caller's generator (fallible, logged as event 8)
 ITick(fk)            == [t |-> "tick", fk |-> fk]        \* a fallible step of the caller's iterator (no event): 8 dereference, 9 increment
+
+InlRegion(c) == IF c = "A" THEN 1 ELSE IF c = "B" THEN 2 ELSE 3      \* "T": a temporary container on the stack (its inline cells are region 3)
 
 (***************************************************************************)
 (* Interpreter                                                             *)
@@ -71,6 +77,7 @@ Fallible(cfg, ins) ==
   CASE ins.t = "alloc" -> TRUE
     [] ins.t = "tick" -> TRUE
     [] ins.t = "gen"  -> TRUE
+    [] ins.t = "stream" -> TRUE
     [] ins.t = "ctor" -> ins.kind \in {0, 1, 3} \/ (ins.kind = 2 /\ ~cfg.nothrowMoveCtor)
     [] ins.t = "asg"  -> ins.kind = 1 \/ (ins.kind = 2 /\ ~cfg.nothrowMoveAssign)
     [] OTHER -> FALSE
@@ -79,6 +86,7 @@ FaultKind(ins) ==
   CASE ins.t = "alloc" -> 1
     [] ins.t = "tick" -> ins.fk
     [] ins.t = "gen"  -> 10
+    [] ins.t = "stream" -> IF ins.code = 6 THEN 8 ELSE 9
     [] ins.t = "ctor" -> (CASE ins.kind = 0 -> 6 [] ins.kind = 1 -> 2 [] ins.kind = 2 -> 3 [] OTHER -> 7)
     [] ins.t = "asg" -> IF ins.kind = 1 THEN 4 ELSE 5
     [] OTHER -> 0
@@ -115,6 +123,7 @@ Prim(cfg, s, ins) ==
     [] ins.t = "dtor" ->
          [SetCell(s, ins.r, ins.i, Raw) EXCEPT !.evs = Append(@, <<3, ins.r, ins.i, 0, 0, 0>>)]
     [] ins.t = "gen" -> [s EXCEPT !.evs = Append(@, <<8, 0, ins.j, 0, 0, 0>>)]
+    [] ins.t = "stream" -> [s EXCEPT !.evs = Append(@, <<ins.code, 0, ins.j, ins.j, ins.len, 0>>)]
     [] ins.t = "sethd" -> [s EXCEPT !.hd[ins.c].cap = ins.cap, !.hd[ins.c].st = ins.st]
     [] ins.t = "setsz" -> [s EXCEPT !.hd[ins.c].sz = ins.sz]
     [] ins.t = "setp"  -> [s EXCEPT !.hd[ins.c].p = ins.p, !.hd[ins.c].al = ins.al]
@@ -132,6 +141,14 @@ RunOne(cfg, s, ins) ==
          ELSE LET h == RunSeq(cfg, r.s, ins.handler, 1) IN
               [s |-> h.s, exc |-> IF h.exc = "" THEN r.exc ELSE h.exc]      \* handlers rethrow; a throwing handler propagates its own
     [] ins.t = "uc" -> RunUc(cfg, s, ins.items, 1)
+    [] ins.t = "erase_to" ->           \* erase_range (begin + from, end) on whatever buffer the container has by now
+         LET h == s.hd[ins.c]
+             Rn == IF h.st > 0 THEN 10 + h.st ELSE InlRegion(ins.c)
+         IN RunSeq(cfg, s, <<ISetSz(ins.c, ins.from)>> \o [j \in 1..(h.sz - ins.from) |-> IDtor(Rn, ins.from + j - 1)], 1)
+    [] ins.t = "wipe" ->               \* destructor of a completely constructed base: destroy everything, give the block back
+         LET h == s.hd[ins.c]
+             Rn == IF h.st > 0 THEN 10 + h.st ELSE InlRegion(ins.c)
+         IN RunSeq(cfg, s, [j \in 1..h.sz |-> IDtor(Rn, j - 1)] \o (IF h.st > 0 THEN <<IDealloc(h.st, h.cap, h.al)>> ELSE <<>>), 1)
     [] ins.t = "dtor_to_size" ->       \* destroy [from, current size), size := from  (depends on the size reached so far)
          RunSeq(cfg, s, [j \in 1..(s.hd[ins.c].sz - ins.from) |-> IDtor(ins.R, ins.from + j - 1)] \o <<ISetSz(ins.c, ins.from)>>, 1)
     [] ins.t = "throw" -> [s |-> s, exc |-> ins.what]
@@ -158,7 +175,6 @@ RunUc(cfg, s, items, i) ==
                 h == RunSeq(cfg, r.s, undo, 1)
             IN [s |-> h.s, exc |-> r.exc]
 
-InlRegion(c) == IF c = "A" THEN 1 ELSE 2
 Hd(x) == IF x.p THEN [p |-> TRUE, cap |-> x.cap, sz |-> Len(x.e), st |-> StN(x), al |-> x.al] ELSE [p |-> FALSE, cap |-> 0, sz |-> 0, st |-> 0, al |-> 0]
 
 (***************************************************************************)
@@ -352,6 +368,11 @@ CtorKind(cfg, rk) == IF rk = 5 THEN MoveKind(cfg) ELSE 1
 StepTicks(rk, n) == IF rk \in {1, 2} THEN [j \in 1..n |-> ITick(9)] ELSE <<>>
 
 \* default_uninitialized_copy (2127): construct (d, *first); ++d; ++first
+\* (sr = region the source elements live in: 4 = the caller's range; a buffer region for move_iterators over a temporary)
+UCopyFrom(cfg, rk, sr, R2, dlo, lo, hi) ==
+  IUc(Seqq(lo, hi, LAMBDA j : ICtor(R2, dlo + (j - lo), CtorKind(cfg, rk), sr, j, 0)))
+CopyAsgFrom(cfg, rk, sr, R, dlo, lo, hi) == Seqq(lo, hi, LAMBDA j : IAsg(R, dlo + (j - lo), CtorKind(cfg, rk), sr, j))
+
 UCopyExt(cfg, rk, R2, dlo, lo, hi) ==
   IUc(IF Ticks(rk)
         THEN [k \in 1..(3 * (hi - lo)) |->
@@ -397,14 +418,14 @@ AppendRange(cfg, c, x, R, id, n, kind, rk) ==
   ELSE <<UCopyExt(cfg, rk, R, x.sz, 0, n), ISetSz(c, x.sz + n), IRet(x.sz)>>)
 
 \* insert_range_helper (3990), pos < sz, n > 0
-InsertRangeHelper(cfg, c, x, R, id, pos, n, rk) ==
+InsertRangeHelperFrom(cfg, c, x, R, id, pos, n, rk, sr) ==
   StepTicks(rk, n) \o
   (IF x.cap - x.sz < n THEN
     IF cfg.max - x.sz < n THEN <<IThrow("length_error")>>
     ELSE LET nc == GrowTo(cfg, x.cap, x.sz + n)
              R2 == 10 + id
          IN <<IAlloc(id, nc, x.al),
-              ITry(<<UCopyExt(cfg, rk, R2, pos, 0, n),
+              ITry(<<(IF sr = 4 THEN UCopyExt(cfg, rk, R2, pos, 0, n) ELSE UCopyFrom(cfg, rk, sr, R2, pos, 0, n)),
                      ITry(<<UMove(cfg, MoveKind(cfg), R, 0, pos, R2, 0)>>, DestroyRange(R2, pos, pos + n)),
                      ITry(<<UMove(cfg, MoveKind(cfg), R, pos, x.sz, R2, pos + n)>>, DestroyRange(R2, 0, pos + n))>>,
                    <<IDealloc(id, nc, x.al)>>)>>
@@ -413,18 +434,60 @@ InsertRangeHelper(cfg, c, x, R, id, pos, n, rk) ==
     LET tail == x.sz - pos IN
     IF tail < n THEN
       StepTicks(rk, tail)                     \* pivot = unchecked_next (first, tail_size)
-      \o <<UCopyExt(cfg, rk, R, x.sz, tail, n), ISetSz(c, x.sz + n - tail),
+      \o <<(IF sr = 4 THEN UCopyExt(cfg, rk, R, x.sz, tail, n) ELSE UCopyFrom(cfg, rk, sr, R, x.sz, tail, n)), ISetSz(c, x.sz + n - tail),
         ITry(<<UMove(cfg, MoveKind(cfg), R, pos, x.sz, R, x.sz + n - tail), ISetSz(c, x.sz + n),
-               ITry(CopyAsg(cfg, rk, R, pos, 0, tail),
+               ITry((IF sr = 4 THEN CopyAsg(cfg, rk, R, pos, 0, tail) ELSE CopyAsgFrom(cfg, rk, sr, R, pos, 0, tail)),
                     MoveLeft(cfg, R, x.sz + n - tail, x.sz + n, pos) \o DestroyRange(R, x.sz + n - tail, x.sz + n)
                     \o <<ISetSz(c, x.sz + n - tail)>>)>>,
              <<[t |-> "dtor_to_size", c |-> c, R |-> R, from |-> x.sz]>>),
         IRet(pos)>>
     ELSE
       Shift(cfg, c, x, R, pos, n)
-      \o <<ITry(CopyAsg(cfg, rk, R, pos, 0, n),
+      \o <<ITry((IF sr = 4 THEN CopyAsg(cfg, rk, R, pos, 0, n) ELSE CopyAsgFrom(cfg, rk, sr, R, pos, 0, n)),
                 MoveLeft(cfg, R, pos + n, x.sz + n, pos) \o DestroyRange(R, x.sz, x.sz + n) \o <<ISetSz(c, x.sz)>>),
            IRet(pos)>>)
+
+InsertRangeHelper(cfg, c, x, R, id, pos, n, rk) == InsertRangeHelperFrom(cfg, c, x, R, id, pos, n, rk, 4)
+
+\* append_range, input overloads (3728 strong / 3748 plain): one append_element per position; the header evolves
+RECURSIVE AppendLoop(_, _, _, _, _, _, _, _, _)
+AppendLoop(cfg, c, x, id, j, n, len, strong, orig) ==
+  IF j = n THEN <<>>
+  ELSE LET R  == IF x.st > 0 THEN 10 + x.st ELSE InlRegion(c)
+           realloc == x.sz = x.cap
+           x2 == IF realloc THEN [x EXCEPT !.sz = @ + 1, !.cap = GrowTo(cfg, x.cap, x.sz + 1), !.st = id] ELSE [x EXCEPT !.sz = @ + 1]
+           elem == <<IStream(6, j, len)>> \o AppendElement(cfg, c, x, R, id, <<1, 4, j, 0>>, -1)
+       IN (IF strong THEN <<ITry(elem, <<[t |-> "erase_to", c |-> c, from |-> orig]>>)>> ELSE elem)
+          \o <<IStream(7, j, len)>>
+          \o AppendLoop(cfg, c, x2, IF realloc THEN id + 1 ELSE id, j + 1, n, len, strong, orig)
+
+\* header of a container after n single appends (capacity policy only)
+RECURSIVE AfterAppends(_, _, _, _)
+AfterAppends(cfg, x, id, n) ==
+  IF n = 0 THEN [x |-> x, id |-> id]
+  ELSE IF x.sz = x.cap THEN AfterAppends(cfg, [x EXCEPT !.sz = @ + 1, !.cap = GrowTo(cfg, x.cap, x.sz + 1), !.st = id], id + 1, n - 1)
+  ELSE AfterAppends(cfg, [x EXCEPT !.sz = @ + 1], id, n - 1)
+
+\* insert_range, input overload (4085), pos < sz: the range is first collected in a temporary container (same allocator),
+\* which is then inserted through move_iterators and destroyed -- also when anything after its construction throws
+InsertInputMid(cfg, c, x, R, id, pos, n, N) ==
+  LET t0 == [p |-> TRUE, cap |-> N, sz |-> 0, st |-> 0, al |-> x.al]
+      fin == AfterAppends(cfg, t0, id, n)
+      Rt  == IF fin.x.st > 0 THEN 10 + fin.x.st ELSE 3
+  IN <<ISetP("T", TRUE, x.al), ISetHd("T", N, 0), ISetSz("T", 0),
+       ITry(AppendLoop(cfg, "T", t0, id, 0, n, n, FALSE, 0)
+            \o InsertRangeHelperFrom(cfg, c, x, R, fin.id, pos, n, 5, Rt),
+            <<[t |-> "wipe", c |-> "T"], ISetP("T", FALSE, 0)>>),
+       [t |-> "wipe", c |-> "T"], ISetP("T", FALSE, 0)>>
+
+\* assign_with_range, input overload for assignable elements (3552)
+AssignInput(cfg, c, x, R, id, n) ==
+  LET m == IF x.sz < n THEN x.sz ELSE n
+      over == [k \in 1..(3 * m) |->
+                 LET j == (k - 1) \div 3 IN
+                 CASE (k - 1) % 3 = 0 -> IStream(6, j, n) [] (k - 1) % 3 = 1 -> IAsg(R, j, 1, 4, j) [] OTHER -> IStream(7, j, n)]
+  IN over \o (IF n <= x.sz THEN (IF n < x.sz THEN <<ISetSz(c, n)>> \o DestroyRange(R, n, x.sz) ELSE <<>>)
+              ELSE AppendLoop(cfg, c, x, id, x.sz, n, n, FALSE, 0))
 
 \* insert_range, forward overload (4103) behind the public insert (which returns early for an empty range)
 InsertRange(cfg, c, x, R, id, pos, n, rk) ==
@@ -647,12 +710,24 @@ Script(cfg, pre, ln, id) ==
     [] op = "reserve"        -> Reserve(cfg, c, x, R, id, a[1])
     [] op = "shrink"         -> Shrink(cfg, c, x, R, id, N, InlRegion(c))
     [] op = "assign_n"       -> AssignCopies(cfg, c, x, R, id, a[1], 4, 100)
-    [] op = "assign_rng"     -> AssignRange(cfg, c, x, R, id, a[2], a[1])
+    [] op = "assign_rng"     -> IF a[1] = 0 THEN AssignInput(cfg, c, x, R, id, a[2]) ELSE AssignRange(cfg, c, x, R, id, a[2], a[1])
     [] op \in {"assign_il", "opeq_il"} -> AssignRange(cfg, c, x, R, id, a[1], 4)
-    [] op = "append_rng"     -> AppendRange(cfg, c, x, R, id, a[2], StrongKind(cfg), a[1]) \o <<IRet(-1)>>      \* append returns *this
+    [] op = "append_rng"     -> (IF a[1] = 0 THEN AppendLoop(cfg, c, x, id, 0, a[2], a[2], TRUE, x.sz)
+                                 ELSE AppendRange(cfg, c, x, R, id, a[2], StrongKind(cfg), a[1])) \o <<IRet(-1)>>      \* append returns *this
     [] op = "append_il"      -> AppendRange(cfg, c, x, R, id, a[1], StrongKind(cfg), 4) \o <<IRet(-1)>>
+    [] op = "insert_rng" /\ a[2] = 0 ->
+         IF a[3] = 0 THEN <<IRet(a[1])>>
+         ELSE IF a[1] = x.sz THEN AppendLoop(cfg, c, x, id, 0, a[3], a[3], FALSE, 0) \o <<IRet(a[1])>>      \* append_range, plain policy
+         ELSE InsertInputMid(cfg, c, x, R, id, a[1], a[3], N)
     [] op = "insert_rng"     -> InsertRange(cfg, c, x, R, id, a[1], a[3], a[2])
     [] op = "insert_il"      -> InsertRange(cfg, c, x, R, id, a[1], a[2], 4)
+    [] op = "ctor_rng" /\ a[2] = 0 ->
+         \* input-range constructor (3455): delegate to the allocator constructor, then append element by element;
+         \* a failure runs the destructor of the (completely constructed) base
+         LET al == IF cfg.isStd THEN 0 ELSE IF a[1] = 0 THEN 1 ELSE a[1]
+             x0 == [p |-> TRUE, cap |-> N, sz |-> 0, st |-> 0, al |-> al]
+         IN <<ISetP(c, TRUE, al), ISetHd(c, N, 0), ISetSz(c, 0),
+              ITry(AppendLoop(cfg, c, x0, id, 0, a[3], a[3], FALSE, 0), <<[t |-> "wipe", c |-> c], ISetP(c, FALSE, 0)>>), IRet(-1)>>
     [] op \in {"ctor_rng", "ctor_il"} ->
          \* forward-range constructor (3483): exact allocation, checked against max_size()
          LET al == IF cfg.isStd THEN 0 ELSE IF a[1] = 0 THEN 1 ELSE a[1]
@@ -708,9 +783,10 @@ Exec(cfg, pre, ln) ==
   LET maxid == IF Len(pre.blocks) = 0 THEN 0 ELSE CHOOSE m \in {pre.blocks[j][1] : j \in 1..Len(pre.blocks)} :
                                                    \A j \in 1..Len(pre.blocks) : pre.blocks[j][1] <= m
       id   == IF "newid" \in DOMAIN ln THEN ln.newid ELSE maxid + 1
-      s0   == [hd |-> [A |-> Hd(pre.A), B |-> Hd(pre.B)], mem |-> MemOfState(cfg, pre),
+      s0   == [hd |-> [A |-> Hd(pre.A), B |-> Hd(pre.B), T |-> [p |-> FALSE, cap |-> 0, sz |-> 0, st |-> 0, al |-> 0]],
+               mem |-> MemOfState(cfg, pre),
                blk |-> {<<pre.blocks[j][1], pre.blocks[j][2], pre.blocks[j][3]>> : j \in 1..Len(pre.blocks)},
-               tmp |-> <<Raw, Raw>>,
+               tmp |-> [j \in 1..(2 + cfg.na + cfg.nb) |-> Raw],
                ext |-> [i \in (0..(Len(ln.v) - 1)) \cup {100} |-> IF i = 100 THEN (IF Len(ln.v) > 0 THEN ln.v[1] ELSE 0) ELSE ln.v[i + 1]],
                evs |-> <<>>, cnt |-> 0, k1 |-> ln.k[1], k2 |-> ln.k[2], fk |-> <<0, 0>>, ret |-> -1]
       r    == RunSeq(cfg, s0, IF ln.s = "-" THEN Script(cfg, pre, ln, id) ELSE Script2(cfg, pre, ln, id), 1)
